@@ -52,7 +52,7 @@ def run_one(m, tier, extra_props=()):
             return rec
         rec['checks'] = {}
         for pid in (prop,) + tuple(extra_props):
-            e2 = dict(os.environ, HPLMON_REPO=wt)
+            e2 = dict(os.environ, HPLMON_REPO=wt, HPLMON_EVIDENCE_DIR=os.path.join(wt, '.evidence'), HPLMON_REPLAY_DIR=os.path.join(wt, '.replays'))
             c = subprocess.run([os.path.join(VERIF, 'check'), pid, '--tier', tier], env=e2, capture_output=True,
                                text=True, timeout=3600, cwd=VERIF)
             kinds = sorted(set(re.findall(r'violation kind=(\S+)', c.stdout)))
